@@ -174,7 +174,10 @@ def parse_graphic_sequence(
                 current_set.append(items[idx])
             left_in_set -= 1
             if left_in_set <= 0:
-                output.append(AnsiSetting(current_set))
+                setting = AnsiSetting(current_set)
+                # Without add_erroneous only parsable settings (and RESET) are promised - e.g. 38;5;300 is thrown out
+                if add_erroneous or setting.parsable or setting.get_initial_param() == AnsiParam.RESET:
+                    output.append(setting)
                 current_set = []
         elif add_erroneous:
             output.append(AnsiSetting(value))
